@@ -51,6 +51,9 @@ Definition rdres_eqb (a b : rdres) : bool :=
   | RE x, RE y => exn_eqb x y
   | _, _ => false
   end.
+(* [RE OtherError] in the observation BEFORE the first operation marks a value the driver did not read
+   (reading it would initialise a default): it constrains nothing *)
+Definition rd_keeps (after before : rdres) : bool := rdres_eqb after before || rdres_eqb before (RE OtherError).
 Definition outcome_eqb (a b : outcome) : bool :=
   match a, b with Done, Done => true | Raised x, Raised y => exn_eqb x y | _, _ => false end.
 
@@ -178,7 +181,7 @@ Definition law_step (g : cfg) (L : lspec) (before : obs) (o : op) (ob : obs) : l
             end)
   ++ chk 4 (forallb (fun x =>
            is_deleg g x || (negb failed && node_eqb x X && match o with Set_ _ _ _ => true | _ => false end)
-           || rdres_eqb (oread g ra x) (oread g rb x)) nodes)
+           || rd_keeps (oread g ra x) (oread g rb x)) nodes)
   ++ chk 5 (match o with
             | Set_ x n v =>
                 match checked (vtrait g rb lb (x, n)) v with
@@ -194,7 +197,7 @@ Definition law_step (g : cfg) (L : lspec) (before : obs) (o : op) (ob : obs) : l
                    end
             end)
   ++ chk 6 (negb failed
-            || (list_eqb (list_eqb rdres_eqb) ra rb && list_eqb (list_eqb Bool.eqb) la lb
+            || (list_eqb (list_eqb rd_keeps) ra rb && list_eqb (list_eqb Bool.eqb) la lb
                 && Harness.is_nil (ob_events ob)))
   ++ chk 7 (failed
             || forallb (fun y =>
